@@ -291,4 +291,86 @@ def run (atoms : List Atom) (edges : List (Int × Int)) (p : Params) : Outcome :
   else if selAtoms.any (fun a => a.pos = Pos.nan) then .nanWarning
   else .bonds (emit atoms p (mats atoms edges p))
 
+/-! ### the processor object `ApplyRubberBand`
+
+`__init__` stores its arguments; `run_molecule` reads them and assigns nothing to `self`.
+Two options are resolved per molecule: `bond_type` and `res_min_dist` are used as given unless they
+are `None` (tested with `is None`, so an explicit 0 counts as given), in which case the value of the
+force-field variable named `bond_type_variable` / `res_min_dist_variable` is used if the force field
+has it, else `DEFAULT_BOND_TYPE = 6` / `DEFAULT_RMD = 2`.  Selector, bounds, decay parameters, base
+constant, minimum force and domain criterion always come from the constructor. -/
+
+def DEFAULT_BOND_TYPE : Int := 6
+def DEFAULT_RMD : Int := 2
+
+structure Proc where
+  names : List String            -- selector
+  lower : Rat
+  upper : Rat                    -- nm
+  decayFactor : Rat
+  decayPower : Rat
+  base : Rat
+  minForce : Rat
+  resMinDist : Option Int
+  bondType : Option Int
+  bondTypeVar : String
+  resMinDistVar : String
+  dom : Domain
+  deriving Inhabited
+
+/-- what `run_molecule` hands to `apply_rubber_band` -/
+structure Options where
+  names : List String
+  lower : Rat
+  upper : Rat
+  decayFactor : Rat
+  decayPower : Rat
+  base : Rat
+  minForce : Rat
+  bondType : Int
+  resMinDist : Int
+  dom : Domain
+
+/-- `x if x is not None else variables.get(name, default)` -/
+def orVariable (given : Option Int) (vars : List (String × Int)) (name : String) (dflt : Int) : Int :=
+  match given with
+  | some v => v
+  | none => (vars.lookup name).getD dflt
+
+def resolveOptions (p : Proc) (vars : List (String × Int)) : Options :=
+  { names := p.names, lower := p.lower, upper := p.upper, decayFactor := p.decayFactor,
+    decayPower := p.decayPower, base := p.base, minForce := p.minForce, dom := p.dom,
+    bondType := orVariable p.bondType vars p.bondTypeVar DEFAULT_BOND_TYPE,
+    resMinDist := orVariable p.resMinDist vars p.resMinDistVar DEFAULT_RMD }
+
+/-- one molecule handed to the processor: atoms, edges, the variables of ITS force field, and the
+decay table for its distances (see `kOf`) -/
+structure MolInput where
+  atoms : List Atom
+  edges : List (Int × Int)
+  vars : List (String × Int)
+  kTab : List (Nat × Rat)
+
+/-- squared cut-off in lattice units: `d ≤ upper` iff `d2 ≤ ⌊(256·upper)²⌋` for `upper ≥ 0` -/
+def upper2Of (upper : Rat) : Nat := ((upper * 256) * (upper * 256)).floor.toNat
+
+def paramsOfOptions (o : Options) (kTab : List (Nat × Rat)) : Params :=
+  { names := o.names, sep := o.resMinDist.toNat, upper2 := upper2Of o.upper, base := o.base,
+    minForce := o.minForce, kTab := kTab, dom := o.dom }
+
+/-- `ApplyRubberBand(...).run_molecule(molecule)` of a freshly constructed processor:
+the outcome and the bond type written into every bond -/
+def runMolecule (p : Proc) (m : MolInput) : Outcome × Int :=
+  let o := resolveOptions p m.vars
+  (run m.atoms m.edges (paramsOfOptions o m.kTab), o.bondType)
+
+/-- one application of a processor object: new state of the object and result.
+The code assigns nothing to `self`. -/
+def procStep (p : Proc) (m : MolInput) : Proc × (Outcome × Int) := (p, runMolecule p m)
+
+/-- the same processor object applied to several molecules in a row -/
+def runHistory (p : Proc) : List MolInput → List (Outcome × Int)
+  | [] => []
+  | m :: ms => (procStep p m).2 :: runHistory (procStep p m).1 ms
+
 end C15
